@@ -31,7 +31,11 @@ def _setup():
         prog = load_program()
         for path in extra:
             prog.load_abs(path)
-        _STATE.update(reg=reg, ftypes=ftypes, lemmas=lemmas, prog=prog)
+        try:
+            from contracts.spec import relevance
+        except ImportError:
+            relevance = None
+        _STATE.update(reg=reg, ftypes=ftypes, lemmas=lemmas, prog=prog, relevance=relevance)
     return _STATE
 
 
@@ -58,7 +62,7 @@ def verify_item(item, timeout_ms=None):
     try:
         if kind == "lemma":
             fn = st["lemmas"][name]
-            obs = [(f"lemma:{name}:{n}", pc, g, "lemma", 0) for n, pc, g in fn()]
+            obs = [(f"lemma:{name}:{n}", pc, g, "lemma", 0, {}) for n, pc, g in fn()]
             rep["file"] = "contracts/lemmas.py"
         else:
             con = st["reg"].get(name)
@@ -80,7 +84,7 @@ def verify_item(item, timeout_ms=None):
             if info["paths"] == 0:
                 rep["status"] = "error"
                 rep["message"] = "no path reaches the end of the function (vacuous)"
-            obs = [(o.name, o.pc, o.goal, o.kind, o.line) for o in obl]
+            obs = [(o.name, o.pc, o.goal, o.kind, o.line, o.tags) for o in obl]
             # must-fail canary: `False` must not be provable at a normal exit
             if eng.canary_pc is not None:
                 cr = solve.prove(eng.canary_pc, z3.BoolVal(False), use_cvc5=False, timeout_ms=1500)
@@ -89,7 +93,24 @@ def verify_item(item, timeout_ms=None):
                     rep["status"] = "error"
                     rep["message"] = "canary: `False` is provable at a normal exit (inconsistent assumptions)"
         n_unknown = 0
-        for oname, pc, goal, okind, line in obs:
+        relevance = st.get("relevance")
+        for oname, pc, goal, okind, line, tags in obs:
+            # hide hypotheses the obligation does not need (sound: dropping hypotheses only
+            # weakens the premise); if that is not enough the full path condition is used
+            full_pc = pc
+            keep = relevance(oname) if relevance else None
+            if keep is not None and tags:
+                pc = [f for i, f in enumerate(full_pc) if (i not in tags) or keep(tags[i])]
+                if len(pc) < len(full_pc):
+                    r0 = solve.prove(pc, goal, use_cvc5=False, timeout_ms=min(timeout_ms or 10 ** 9, 6000))
+                    if r0.status == "proved":
+                        rep["obligations"].append({
+                            "name": oname, "key": strip_line(oname), "kind": okind, "line": line, "status": "proved",
+                            "solver": r0.solver, "seconds": round(r0.seconds, 3), "reason": "", "model": "",
+                            "hypotheses": f"{len(pc)}/{len(full_pc)}"})
+                        continue
+                    rep["notes"].append(f"reduced hypotheses not enough for {oname} ({r0.status})")
+                pc = full_pc
             # adaptive budget: once two obligations of a function are undecided the rest of
             # that function is most likely hit by the same cause; do not spend the full
             # budget (z3 + cvc5) on each of them.  On a tree where everything discharges this
@@ -100,6 +121,13 @@ def verify_item(item, timeout_ms=None):
                 res = solve.prove(pc, goal, timeout_ms=timeout_ms)
             if res.status == "unknown":
                 n_unknown += 1
+            dump = os.environ.get("PYVC_DUMP")
+            if dump and dump in oname:
+                import z3 as _z3
+                os.makedirs("/tmp/pyvc_dump", exist_ok=True)
+                fn = "/tmp/pyvc_dump/" + re.sub(r"[^A-Za-z0-9_.-]", "_", oname)[:150] + f"_{len(rep['obligations'])}.smt2"
+                with open(fn, "w") as f:
+                    f.write(solve.to_smt2(pc, _z3.Not(goal)))
             rep["obligations"].append({
                 "name": oname, "key": strip_line(oname), "kind": okind, "line": line, "status": res.status,
                 "solver": res.solver, "seconds": round(res.seconds, 3), "reason": res.reason,
